@@ -13,7 +13,7 @@ func init() {
 	props["c09"] = runC09
 }
 
-var extLists = [][]string{nil, {".go"}, {"Makefile"}, {"go", ".go"}, {".md", "Makefile", ".go"}, {""}, {"a"}}
+var extLists = [][]string{nil, {".go"}, {"Makefile"}, {"go", ".go"}, {".md", "Makefile", ".go"}, {""}, {"a"}, {".x.go", ".go"}, {".go", ".x.go"}, {"b.go"}}
 
 // nodePaths lists the relative paths (under the target) of all nodes of the forest.
 func nodePaths(f []*Tree) (paths []string, leaf map[string]bool) {
@@ -45,7 +45,7 @@ func runC06(ctx *Ctx) *Report {
 		n = 5
 	}
 	var cases []Case
-	forests := forestsUpTo(n, []string{"a", "b.go", "Makefile"})
+	forests := forestsUpTo(n, []string{"a", "a-old", "b.go", "Makefile"})
 	long := strings.Repeat("L", 256)
 	i := 0
 	for _, f := range forests {
@@ -107,7 +107,7 @@ func runC06(ctx *Ctx) *Report {
 	return rep
 }
 
-var hostilePathNames = []string{"..", ".", "a/b", "/x", "x/", "../..", "../../../evil", "a/../../b", "\xff", "ok", "...", "..a", "a\\b", "con", " ", "x\x00y"}
+var hostilePathNames = []string{"..", ".", "a/b", "/x", "x/", "../..", "../../../evil", "a/../../b", "\xff", "ok", "...", "..a", "a\\b", "con", " ", "x\x00y", "./x", ".//x", "./", "x/."}
 
 func runC07(ctx *Ctx) *Report {
 	rep := NewReport("C07")
@@ -164,6 +164,21 @@ func runC07(ctx *Ctx) *Report {
 					}
 				}
 			}
+		}
+	}
+	// a target that does not exist yet (a rejected tree or a dry run must not create it) and a target whose
+	// name ends in a blank (its sibling without the blank must stay untouched)
+	for _, h := range []string{"..", "a/b", "ok", "./x"} {
+		for _, dry := range []bool{false, true} {
+			doc := []byte("- r\n  - " + h + "\n  - fine\n")
+			c := newCase("mkdir")
+			c.Doc, c.DocText, c.Target, c.Dry, c.Note = hx(doc), docText(doc), "missing/deep/t", dry, "hostile="+h
+			c.Pre = []FSEntry{{"sib", "d"}}
+			cases = append(cases, c)
+			c2 := c
+			c2.Target = "t "
+			c2.Pre = []FSEntry{{"t ", "d"}, {"t", "d"}, {"t/keep", "f1"}}
+			cases = append(cases, c2)
 		}
 	}
 	// empty names are only reachable through NewRoot/Add
@@ -229,8 +244,12 @@ func confinement(c Case, realv string) []Diff {
 	}
 	var d []Diff
 	cls := resultClass(realv)
+	tgt := c.Target
+	if tgt == "" {
+		tgt = "t"
+	}
 	for _, p := range created {
-		if !strings.HasPrefix(p, "t/") {
+		if !strings.HasPrefix(p, tgt+"/") && !(p == tgt || strings.HasPrefix(tgt, p+"/")) {
 			d = append(d, Diff{What: "created outside the target directory: " + p, Real: realv, Model: "nothing outside t/"})
 		}
 	}
@@ -355,6 +374,17 @@ func runC09(ctx *Ctx) *Report {
 			c3 := c2
 			c3.FromRoot, c3.Tree = true, f[0].Enc()
 			cases = append(cases, c3)
+		}
+		if i%3 == 0 {
+			// a target directory that does not exist: a dry run must not create it either
+			c4 := c2
+			c4.Target, c4.Pre = "missing/t", nil
+			cases = append(cases, c4)
+			if len(f) == 1 {
+				c5 := c4
+				c5.FromRoot, c5.Tree = true, f[0].Enc()
+				cases = append(cases, c5)
+			}
 		}
 		if distinctRoots(f) {
 			r := newCase("dry-predicts-real")
